@@ -9,8 +9,9 @@
    client has no leftover registration that could swallow later elements or cut short a later blocking call."
 
   The machine is `Ferrous.Blk` (Model/Blocking.lean): `run q evs` executes any list of loop-phase events
-  from the empty server; `q : Quirks` switches between what the tree does (`Quirks.code`) and the
-  prescribed behaviour.  Layout of this file:
+  from the empty server; `q : Quirks` switches between what the tree did before the first blocking repair
+  (`Quirks.code`, all off), what it does now (`sourceQuirks`, regenerated from the source) and the prescribed
+  behaviour (`Quirks.fixed`).  Layout of this file:
 
   1. the FULL statements, as predicates on the quirk setting;
   2. what holds for EVERY event sequence and every quirk setting: the accounting identity and FIFO service;
@@ -83,6 +84,13 @@ theorem no_duplication (q : Quirks) (evs : List Event) (h : (run q evs).pushed.N
 theorem fifo_service (q : Quirks) : FifoService q :=
   ⟨fun evs s k => fifo_runFrom q k evs s, fun s c k v h => wakeOne_serves_head q s c k v h⟩
 
+/-- The switches as the translator reads them from the source on this run (lean/FerrousSpec/Gen/Blocking.lean);
+    every theorem of sections 2 and 3 holds for them, being proved for all `q`.  (`Quirks.code`, all switches
+    off, is the tree before the first blocking repair; the EXEC repair has landed since: `refuseBlockingInTx`.) -/
+def sourceQuirks : Quirks :=
+  ⟨Gen.Blocking.notifyPerElement, Gen.Blocking.wakeAtPush, Gen.Blocking.unregisterAllOnServe,
+   Gen.Blocking.refuseBlockingInTx, Gen.Blocking.dedupKeys⟩
+
 /-- The model drains as many wake-ups per loop iteration as the source says. -/
 theorem wakeBatch_matches_source : Gen.Blocking.wakeBatch = wakeBatch := by decide
 
@@ -110,6 +118,15 @@ theorem never_early_nil_partial (q : Quirks) (evs : List Event) (h : Allowed q e
     (hb : ((run q evs).conns c).blocked = some b)
     (hn : ((step q (run q evs) (.timeouts now)).conns c).blocked = none) : ∃ d, b.deadline = some d ∧ d ≤ now :=
   iter_expireOne_blocked now c b _ _ (Inv_run q evs h) hb hn
+
+/-- …and it does receive it: after the deadline scan at `now`, a blocked client whose deadline has passed and that has
+    no wake-up under way is released (the code's failure of this — a client dropped from the registry by an
+    empty wake-up never times out — is the witness `no_stranded_fails_pipelined_push_pop`). -/
+theorem timeout_fires_partial (q : Quirks) (evs : List Event) (h : Allowed q evs) (now : Nat) (c : Conn) (b : Blocked) (d : Nat)
+    (hb : ((run q evs).conns c).blocked = some b) (hd : b.deadline = some d) (hle : d ≤ now)
+    (hw : ∀ w, w ∈ (run q evs).wakeQ → w.conn ≠ c) :
+    ((step q (run q evs) (.timeouts now)).conns c).blocked = none :=
+  (Inv_run q evs h).timeout_fires now c b d hb hd hle hw
 
 /-- In an allowed history a queued wake-up request always finds its element and its client still blocked:
     the registry/wake-queue/connection-state triple never disagrees (the invariant of DESIGN D3). -/
